@@ -7,6 +7,7 @@ CONSTANTS
   ExpiryRecheck = TRUE
   EntryApi = TRUE
   FlushLock = TRUE
+  CollectOwn = TRUE
 SPECIFICATION Spec
 INVARIANT Linearizable
 PROPERTY Termination
